@@ -144,6 +144,15 @@ class Params(Driver):
 
 # ------------------------------------------------------------------------------------------ roundtrip
 
+def scribble(info):
+    """what a caller may do to a dictionary it was handed: overwrite every entry, empty the lists"""
+    for k in list(info):
+        if isinstance(info[k], list):
+            del info[k][:]
+        info[k] = "caller-edit"
+    info["type"] = "nulldata"
+
+
 class RoundTrip(Driver):
     id = "C08.roundtrip"
     rule = ("network x kind x payload; the reference builds script and address, pycoin must produce the same address "
@@ -184,6 +193,11 @@ class RoundTrip(Driver):
                     return BAD("address-differs", want, show(v), clause="address-string", kind=kind)
                 return OK("absent-grs:bech32-production-only", n=2)
             return OK("trivial-absent-grs", n=1)
+        # a caller that edits the description it was handed (to derive a sibling script) must not change what the network
+        # says about this script afterwards (Mode S, depth 2 on every case)
+        ok, info0 = call(n.contract.info_for_script, script)
+        if ok and isinstance(info0, dict):
+            scribble(info0)
         ok, info = call(n.contract.info_for_script, script)
         calls += 1
         if not ok or not isinstance(info, dict) or info.get("type") != PYCOIN_TYPE[kind]:
@@ -209,6 +223,9 @@ class RoundTrip(Driver):
             ok, a = call(c.address)
             if not ok or a != want:
                 return BAD("roundtrip-differs", "Contract.address() %s" % want, show(a), clause="address-roundtrip", kind=kind)
+            ok, ci = call(c.info)
+            if ok and isinstance(ci, dict):
+                scribble(ci)              # the next parser (and for_address) must be unaffected
         ok, s = call(n.contract.for_address, want)
         calls += 1
         if not ok or s != script:
